@@ -364,6 +364,9 @@ func (e *Enc) class(name string) int {
 	if e.ownMaps[name] {
 		return 3 // maps of types written only by the root's package: changed by name only (see havocClass)
 	}
+	if name == "HELD" {
+		return 2 // thread-local: which mutexes this thread has locked
+	}
 	for _, p := range []string{"CALLED_", "COUNT_", "LAST_", "LASTB_", "ARGS_", "VIS_"} {
 		if strings.HasPrefix(name, p) {
 			return 2 // ghost record of the calls made by the function under verification: callees cannot change it
